@@ -118,9 +118,20 @@ def extras(tier, which, spelling, urikey):
             out.append((("at", NONASCII_ATTR_NAME, v),))
         for v in values.VALUES:
             out.append((("at", PROV_OTHER_ATTR_NAME, v),))
+        # PROV-DM argument names as additional attributes (of record kinds that may not have that argument)
+        for l in ("activity", "agent", "plan", "entity", "starter", "generation"):
+            for v in ("q_exA", "q_exB"):
+                out.append((("at", ("P", l, Q("prov")), v),))
+        for l in ("time", "startTime", "endTime"):
+            for v in ("d_naive", "d_530", "d_us_utc"):
+                out.append((("at", ("P", l, Q("prov")), v),))
         for a, b in PAIRS:
             out.append((("at", k, a), ("at", k, b)))
             out.append((("at", PROV_ATTR_NAMES[0], a), ("at", PROV_ATTR_NAMES[0], b)))
+        # several values under one of the PROV attributes that PROV-XML orders, followed by later ones
+        for pn in PROV_ATTR_NAMES:
+            out.append((("at", pn, "s_a"), ("at", pn, "s_quote"), ("at", pn, "s_uni"),
+                        ("at", PROV_ATTR_NAMES[0], "q_exA"), ("at", PROV_ATTR_NAMES[2], "i_2"), ("at", k, "i_2")))
         k2 = (urikey, "k2", spelling)
         for a, b in ACROSS:
             out.append((("at", k, a), ("at", k2, b)))
@@ -176,6 +187,13 @@ def cases(tier):
                     r2 = shape_ops(scope, spelling, urikey, "entity", (), "id", "r2")
                     out.append(("%s|%s|%s|across-records" % (env, kind, idmode),
                                 prelude + (r1, ("at", k, a), r2, ("at", k, b))))
+        # (3) a colon inside the local part (ex:run:42), names given as 'prefix:local' strings or QualifiedNames
+        if spelling[0] in ("s", "q"):
+            for kind, mask in REP_SHAPES[:3]:
+                rel = kind in RELATIONS
+                rec = shape_ops(scope, spelling, urikey, kind, mask, "id", "run:42")
+                k = (urikey, "k", spelling)
+                out.append(("%s|%s|id|colon-in-local-part" % (env, kind), prelude + (rec, ("at", k, "q_colon"), ("at", k, "s_a"))))
     return out
 
 
